@@ -77,7 +77,7 @@ class FuncInfo:
         return any(d.endswith("abstractmethod") for d in self.decorators)
 
     def loc(self, node: Optional[ast.AST] = None) -> str:
-        ln = getattr(node, "lineno", None) if node is not None else self.lineno
+        ln = (getattr(node, "src_lineno", None) or getattr(node, "lineno", None)) if node is not None else self.lineno
         return f"{self.path}:{ln}"
 
 
@@ -264,6 +264,96 @@ def _canon_membership(tree: ast.AST) -> int:
     return n
 
 
+def _canon_extend(tree: ast.AST) -> int:
+    """Normal form: the statement `xs.extend(<elt> for v in it if c)` is presented as the loop it abbreviates:
+    `for v in it:` / `if c:` / `xs.append(<elt>)`."""
+    n = 0
+    for parent in ast.walk(tree):
+        for fld in ("body", "orelse", "finalbody"):
+            lst = getattr(parent, fld, None)
+            if not (isinstance(lst, list) and lst and isinstance(lst[0], ast.stmt)):
+                continue
+            for i, st in enumerate(lst):
+                c = st.value if isinstance(st, ast.Expr) else None
+                if isinstance(c, ast.Call) and isinstance(c.func, ast.Attribute) and c.func.attr == "extend" and len(c.args) == 1 and not c.keywords \
+                        and isinstance(c.args[0], (ast.GeneratorExp, ast.ListComp)) and len(c.args[0].generators) == 1 \
+                        and not c.args[0].generators[0].is_async and all(isinstance(x, (ast.Name, ast.Attribute, ast.Load)) for x in ast.walk(c.func.value)):
+                    gen = c.args[0].generators[0]
+                    inner: ast.stmt = ast.Expr(value=ast.Call(func=ast.Attribute(value=c.func.value, attr="append", ctx=ast.Load()),
+                                                              args=[c.args[0].elt], keywords=[]))
+                    for cond in reversed(gen.ifs):
+                        inner = ast.If(test=cond, body=[inner], orelse=[])
+                    loop = ast.For(target=gen.target, iter=gen.iter, body=[inner], orelse=[])
+                    lst[i] = ast.fix_missing_locations(ast.copy_location(loop, st))
+                    for x in ast.walk(lst[i]):
+                        if not hasattr(x, "lineno") and isinstance(x, (ast.stmt, ast.expr)):
+                            ast.copy_location(x, st)
+                    n += 1
+    return n
+
+
+def _canon_enumerate(tree: ast.AST) -> int:
+    """Normal form: `for i, v in enumerate(xs, start=k)` (comprehension or loop, i not rebound) is presented as `enumerate(xs)` with
+    `i + k` wherever i is read; `dict(m)` of a plain name / attribute chain as `{**m}`."""
+    n = 0
+
+    def start_of(call: ast.AST):
+        if not (isinstance(call, ast.Call) and isinstance(call.func, ast.Name) and call.func.id == "enumerate" and call.args):
+            return None
+        k = None
+        if len(call.args) == 2 and not call.keywords:
+            k = call.args[1]
+        elif len(call.args) == 1 and len(call.keywords) == 1 and call.keywords[0].arg == "start":
+            k = call.keywords[0].value
+        if isinstance(k, ast.Constant) and isinstance(k.value, int) and not isinstance(k.value, bool) and k.value != 0:
+            return k.value
+        return None
+
+    def shift(nodes, name: str, k: int) -> None:
+        class S(ast.NodeTransformer):
+            def visit_Name(self, node):
+                if node.id == name and isinstance(node.ctx, ast.Load):
+                    return ast.copy_location(ast.BinOp(left=node, op=ast.Add(), right=ast.Constant(value=k)), node)
+                return node
+        for holder, fld in nodes:
+            v = getattr(holder, fld)
+            if isinstance(v, list):
+                setattr(holder, fld, [S().visit(x) for x in v])
+            elif v is not None:
+                setattr(holder, fld, S().visit(v))
+
+    for node in ast.walk(tree):
+        if isinstance(node, (ast.ListComp, ast.SetComp, ast.GeneratorExp, ast.DictComp)) and len(node.generators) == 1:
+            g = node.generators[0]
+            k = start_of(g.iter)
+            if k is not None and isinstance(g.target, ast.Tuple) and len(g.target.elts) == 2 and isinstance(g.target.elts[0], ast.Name):
+                g.iter = ast.copy_location(ast.Call(func=g.iter.func, args=[g.iter.args[0]], keywords=[]), g.iter)
+                flds = [(node, "key"), (node, "value")] if isinstance(node, ast.DictComp) else [(node, "elt")]
+                shift(flds + [(g, "ifs")], g.target.elts[0].id, k)
+                ast.fix_missing_locations(node)
+                n += 1
+        elif isinstance(node, ast.For):
+            k = start_of(node.iter)
+            if k is not None and isinstance(node.target, ast.Tuple) and len(node.target.elts) == 2 and isinstance(node.target.elts[0], ast.Name) \
+                    and not any(isinstance(x, ast.Name) and x.id == node.target.elts[0].id and not isinstance(x.ctx, ast.Load)
+                                for st in node.body for x in ast.walk(st)):
+                node.iter = ast.copy_location(ast.Call(func=node.iter.func, args=[node.iter.args[0]], keywords=[]), node.iter)
+                shift([(node, "body")], node.target.elts[0].id, k)
+                ast.fix_missing_locations(node)
+                n += 1
+    class D(ast.NodeTransformer):
+        def visit_Call(self, node):
+            nonlocal n
+            self.generic_visit(node)
+            if isinstance(node.func, ast.Name) and node.func.id == "dict" and len(node.args) == 1 and not node.keywords \
+                    and isinstance(node.args[0], (ast.Name, ast.Attribute)) and all(isinstance(x, (ast.Name, ast.Attribute, ast.Load)) for x in ast.walk(node.args[0])):
+                n += 1
+                return ast.copy_location(ast.Dict(keys=[None], values=[node.args[0]]), node)
+            return node
+    D().visit(tree)
+    return n
+
+
 def _canon_items(tree: ast.AST) -> int:
     """Normal form: `for k in d:` whose first statement is `v = d[k]` (d a name or attribute chain, v bound nowhere else in the
     loop) is presented to the rules as `for k, v in d.items():`."""
@@ -272,14 +362,22 @@ def _canon_items(tree: ast.AST) -> int:
         if not (isinstance(lp, ast.For) and isinstance(lp.target, ast.Name) and lp.body and isinstance(lp.body[0], ast.Assign)):
             continue
         a = lp.body[0]
-        if len(a.targets) != 1 or not isinstance(a.targets[0], ast.Name) or not isinstance(a.value, ast.Subscript):
+        if len(a.targets) != 1 or not isinstance(a.targets[0], ast.Name):
+            continue
+        if isinstance(a.value, ast.Call) and isinstance(a.value.func, ast.Attribute) and a.value.func.attr == "get" and len(a.value.args) == 1 \
+                and not a.value.keywords:
+            # `v = d.get(k)` for a key k taken from d itself is `v = d[k]`
+            a_val = ast.Subscript(value=a.value.func.value, slice=a.value.args[0], ctx=ast.Load())
+        else:
+            a_val = a.value
+        if not isinstance(a_val, ast.Subscript):
             continue
         d = lp.iter
         if isinstance(d, ast.Call) and isinstance(d.func, ast.Attribute) and d.func.attr == "keys" and not d.args:
             d = d.func.value
         if not all(isinstance(x, (ast.Name, ast.Attribute, ast.Load)) for x in ast.walk(d)):
             continue
-        if ast.dump(a.value.value) != ast.dump(d) or not (isinstance(a.value.slice, ast.Name) and a.value.slice.id == lp.target.id):
+        if ast.dump(a_val.value) != ast.dump(d) or not (isinstance(a_val.slice, ast.Name) and a_val.slice.id == lp.target.id):
             continue
         v = a.targets[0]
         if v.id == lp.target.id or sum(1 for x in ast.walk(lp) if isinstance(x, ast.Name) and x.id == v.id and not isinstance(x.ctx, ast.Load)) != 1:
@@ -345,6 +443,7 @@ class Index:
         from .normalform import dehoist_chains
         self.dehoisted = 0
         for mi in self.modules.values():
+            self.canonicalised += _canon_extend(mi.tree) + _canon_enumerate(mi.tree)
             self.dehoisted += dehoist_chains(mi.tree)
             self.canonicalised += _canon_returns(mi.tree) + _canon_augassign(mi.tree) + _canon_items(mi.tree) + _canon_allany(mi.tree) + _canon_tuple_assign(mi.tree) + _canon_membership(mi.tree)
         for mi in self.modules.values():
